@@ -407,81 +407,115 @@ def slices_part(chk, exes, gen_results, thorough, sd):
         scripts.append((3, random_script(rng, 3, rng.randrange(8, 25), True), "random-big"))
     chk.cov["slice_scripts"] = {"enumerated": n_enum, "random": n_small, "random_big": n_big}
 
-    # ---- run every script for every element size in every configuration
-    def lines_for(es):
-        return ["S %d %d %d %s\n" % (es, i, nv, " ".join(map(str, t))) for i, (nv, t, _) in enumerate(scripts)]
+    # ---- run every script for every element size in every configuration; keep the distinct (script, log) pairs per
+    # model instance (zero-size / non-zero-size: the model is the same for every non-zero size) and who produced them
+    body = ["%d %d %s\n" % (i, nv, " ".join(map(str, t))) for i, (nv, t, _) in enumerate(scripts)]
+    tick("%d scripts prepared" % len(scripts))
 
     def run_one(job):
         name, es = job
-        st, outl, complete = run_batch(exes[name], lines_for(es))
-        logs = {}
+        pre = "S %d " % es
+        st, outl, complete = run_batch(exes[name], [pre + x for x in body])
+        pairs = []
         for ln in outl:
             if ln.startswith("S "):
                 p = ln.split(" ", 2)
-                logs[int(p[1])] = p[2] if len(p) > 2 else ""
-        return name, es, st, complete, logs
+                pairs.append((int(p[1]), p[2] if len(p) > 2 else ""))
+        return name, es, st, complete, pairs
 
-    tick("%d scripts prepared" % len(scripts))
     jobs = [(name, es) for name in exes for es in sizes]
-    with ThreadPoolExecutor(max_workers=6) as ex:
-        results = list(ex.map(run_one, jobs))
-    logs = {}
-    for name, es, st, complete, lg in results:
-        if not complete:
-            if name == "ref":
-                raise C.Undecided("reference run of the interpreter ended abnormally (%s)" % st)
-            missing = next(i for i in range(len(scripts)) if i not in lg)
-            nv, t, _ = scripts[missing]
-            st2, outl2, complete2 = run_batch(exes[name], ["S %d 0 %d %s\n" % (es, nv, " ".join(map(str, t)))], timeout=60)
-            if complete2:
-                raise C.Undecided("interpreter (%s, size %d) ended abnormally (%s) but the script it stopped at runs alone" % (name, es, st))
-            kinds = "+".join(sorted(set(OPNAME[c] for c, _ in split_ops(t))))
-            chk.reject("slice-crash:%s:%s" % (TYPENAME[es], kinds),
-                       "the compiled program dies (%s) on a script of legal Go operations: %s" % (st2, show_script(t)),
-                       {"config": name, "elem": TYPENAME[es], "script": show_script(t), "tokens": t, "status": str(st2),
-                        "output": outl2[-5:]})
-        logs[(name, es)] = lg
-    chk.cov["evaluations"] += sum(len(v) for k, v in logs.items() if k[0] != "ref")
-
-    # ---- distinct (script, log) pairs per model instance (zero-size / non-zero-size: the model is the same for
-    # every non-zero size), remembering who produced them
     groups = {"es0": {}, "esN": {}}
-    for (name, es), lg in logs.items():
-        g = groups["es0" if es == 0 else "esN"]
-        for i, text in lg.items():
-            g.setdefault((i, text), []).append((name, es))
-    budget = {"es0": 150000, "esN": 450000} if thorough else {"es0": 9000, "esN": 14000}
-    verdicts = {}
+    executed = 0
+    with ThreadPoolExecutor(max_workers=6) as ex:
+        for name, es, st, complete, pairs in ex.map(run_one, jobs):
+            if not complete:
+                if name == "ref":
+                    raise C.Undecided("reference run of the interpreter ended abnormally (%s)" % st)
+                seen = set(i for i, _ in pairs)
+                missing = next(i for i in range(len(scripts)) if i not in seen)
+                nv, t, _ = scripts[missing]
+                st2, outl2, complete2 = run_batch(exes[name], ["S %d 0 %d %s\n" % (es, nv, " ".join(map(str, t)))], timeout=60)
+                if complete2:
+                    raise C.Undecided("interpreter (%s, size %d) ended abnormally (%s) but the script it stopped at runs alone" % (name, es, st))
+                kinds = "+".join(sorted(set(OPNAME[c] for c, _ in split_ops(t))))
+                chk.reject("slice-crash:%s:%s" % (TYPENAME[es], kinds),
+                           "the compiled program dies (%s) on a script of legal Go operations: %s" % (st2, show_script(t)),
+                           {"config": name, "elem": TYPENAME[es], "script": show_script(t), "tokens": t, "status": str(st2),
+                            "output": outl2[-5:]})
+            g = groups["es0" if es == 0 else "esN"]
+            src = (name, es)
+            for k in pairs:
+                lst = g.get(k)
+                if lst is None:
+                    g[k] = [src]
+                else:
+                    lst.append(src)
+            if name != "ref":
+                executed += len(pairs)
+    chk.cov["evaluations"] += executed
+
+    budget = {"es0": 150000, "esN": 450000} if thorough else {"es0": 7000, "esN": 10000}
+
+    def signature(k):
+        """operation kinds, outcomes and the final lengths/capacities: used only to spread the validated subset over
+        as many different situations as possible"""
+        i, text = k
+        segs = text.split(" / ")
+        last = segs[-1].split(" ")
+        return (tuple(c for c, _ in split_ops(scripts[i][1])), tuple((x.split(" ", 1)[0] or "?")[0] for x in segs),
+                tuple(p.rsplit(":", 1)[0] for p in last[1:]))
+
+    def stratified(keys, n):
+        if n <= 0 or not keys:
+            return []
+        if len(keys) <= n:
+            return list(keys)
+        strata = {}
+        for k in keys:
+            strata.setdefault(signature(k), []).append(k)
+        order = sorted(strata)
+        for sg in order:
+            rng.shuffle(strata[sg])
+        rng.shuffle(order)
+        out = []
+        depth = 0
+        while len(out) < n:
+            added = False
+            for sg in order:
+                lst = strata[sg]
+                if depth < len(lst):
+                    out.append(lst[depth])
+                    added = True
+                    if len(out) >= n:
+                        break
+            if not added:
+                break
+            depth += 1
+        return out
+
     plan = {}
     for gname, g in groups.items():
         if not g:
             continue
         keys = sorted(g)
-        ref_of = {}
-        for (i, text), src in g.items():
-            for name, es in src:
-                if name == "ref":
-                    ref_of.setdefault((i, es), text)
         must, dev, rest, refonly = [], [], [], []
         for k in keys:
-            i, text = k
             src = g[k]
-            impl = [s for s in src if s[0] != "ref"]
+            impl = [x for x in src if x[0] != "ref"]
             if not impl:
                 refonly.append(k)
-            elif scripts[i][2] != "enum":
+            elif scripts[k[0]][2] != "enum":
                 must.append(k)                      # every seeded longer script is validated
-            elif any(ref_of.get((i, es)) != text for _, es in impl):
+            elif any(("ref", es) not in src for _, es in impl):
                 dev.append(k)                       # deviates from the reference log (capacity or worse): first in line
             else:
                 rest.append(k)
         b = budget[gname]
-        head = dev[:2000]                           # deterministic part (stable representatives)
-        tail = dev[2000:]
-        rng.shuffle(tail)
-        sel = must + head + tail[:max(0, b // 2 - len(head))]
-        rng.shuffle(rest)
-        sel += rest[:max(0, b - len(sel))]
+        head = dev[::max(1, len(dev) // 2000)][:2000]   # deterministic part (stable representatives)
+        hs = set(head)
+        tail = stratified([k for k in dev if k not in hs], max(0, b // 2 - len(head)))
+        sel = must + head + tail
+        sel += stratified(rest, max(0, b - len(sel)))
         rng.shuffle(refonly)
         refsel = refonly[:max(500, b // 6)]
         plan[gname] = (sel, refsel, len(keys))
@@ -528,6 +562,7 @@ def slices_part(chk, exes, gen_results, thorough, sd):
     validated = 0
     informative = 0
     rejected = {}
+    kinds_seen = {}
     for gname, (res, verdict) in tl.items():
         traces, meta, negs = built[gname]
         chk.add_tlc(res, "SliceTrace/" + gname)
@@ -550,12 +585,17 @@ def slices_part(chk, exes, gen_results, thorough, sd):
                 if impl:
                     validated += 1
                     nt = False
+                    prev = [{"nil": True, "len": 0, "cap": 0, "c": []}] * tr["nv"]
                     for e in tr["ev"]:
                         kd = e["op"]["k"]
+                        kinds_seen[kd] = kinds_seen.get(kd, 0) + 1
                         if e["out"]["p"]:
                             stats["panicking_steps"] += 1
                         elif kd in ("app", "apps"):
                             nt = True
+                            n = len(e["op"]["v"]) if kd == "app" else prev[e["op"]["o"]]["len"]
+                            srcv = prev[e["op"]["s"]]
+                            stats["inplace_appends" if srcv["len"] + n <= srcv["cap"] else "growth_appends"] += 1
                             if kd == "apps" and e["op"]["o"] == e["op"]["s"]:
                                 stats["self_appends"] += 1
                         elif kd == "copy" and e["out"]["r"] > 0:
@@ -563,6 +603,7 @@ def slices_part(chk, exes, gen_results, thorough, sd):
                             stats["nonempty_copies"] += 1
                         elif kd in ("r2", "r3") and not e["st"][e["op"]["d"]]["nil"]:
                             nt = True
+                        prev = e["st"]
                     nontrivial += nt
                 continue
             nv, t, origin = scripts[i]
@@ -595,6 +636,11 @@ def slices_part(chk, exes, gen_results, thorough, sd):
         n, t, desc, rep = lst[0]
         rep["rejected_traces_with_this_key"] = len(lst)
         chk.reject(key, desc + " [%d rejected traces of this kind]" % len(lst), rep)
+    unseen = [k for k in ("make", "lit", "r2", "r3", "app", "apps", "copy", "clear", "set", "idx", "nil", "probe", "mov")
+              if not kinds_seen.get(k)]
+    if unseen or not (stats["growth_appends"] and stats["inplace_appends"] and stats["panicking_steps"] and stats["nonempty_copies"]):
+        raise C.Undecided("vacuous run: operation kinds %s / outcome classes %s never occurred in an accepted trace" % (unseen, stats))
+    chk.cov["slice_ops_in_accepted_traces"] = kinds_seen
     if informative == 0:
         raise C.Undecided("no informative negative control for SliceTrace (all originals were rejected)")
     chk.cov["negative_controls"] = chk.cov.get("negative_controls", 0) + informative
@@ -790,8 +836,16 @@ def check(chk):
     tick("strings judged")
     slices_part(chk, exes, gen_results, thorough, sd)
     tick("slices judged")
-    chk.cov["rule"] = ("a log of an llgo-compiled slice script is accepted iff SliceTrace can replay it on SliceModel (only the "
-                       "capacity of a fresh array and its unseen tail are free); a string result must equal Utf8.tla's")
+    chk.cov["rule"] = (
+        "slices: SliceGen (TLC) prints one script per transition of SliceModel, operands taken around every window boundary "
+        "(in range, one beyond, inverted, omitted), plus seeded longer scripts (<=30 ops, lengths up to ~900 crossing the "
+        "256-element growth threshold); every script is executed by the llgo-compiled interpreter for each element size and "
+        "configuration; a log is accepted iff SliceTrace can replay it on SliceModel (only the capacity of a fresh array and "
+        "its unseen tail are free). distinct = distinct (script, observed log) pairs; non-trivial = an accepted trace with a "
+        "non-panicking append, a copy that moved >=1 element or a reslice of a non-nil slice. strings: every byte string over "
+        "the decoder-class boundary alphabet up to length 4, all pairs/slicings over a small alphabet, boundary integers and "
+        "rune sequences; the program's output must equal the result Utf8.tla assigns; non-trivial = contains a byte >= 0x80 "
+        "or is a pair/slicing/integer/rune-sequence case")
     chk.assumptions += [
         "the interpreter program (harness/c05) itself uses append/copy on []byte and defer/recover to produce its log",
         "traces of the element sizes 1,2,3,8,24 are validated by one SliceModel instance (the model is identical for every "
